@@ -5,7 +5,7 @@ View: a point p is seen as ipt(p) = int(p.value); an interval i as
 iiv(i) = int(i.value.replace('P', '')).  Every method is proved to compute on
 that view; the lemmas at the end are small client programs over those
 contracts (trichotomy, round trip, hash consistency, idempotence)."""
-from pyvc.spec import contract, schema, spec, implies, iff, forall, exists
+from pyvc.spec import contract, schema, spec, implies, iff, forall, exists, int_text
 
 schema('IntegerPoint', 'cylc.flow.cycling.integer:IntegerPoint', fields={'value': 'str'})
 schema('IntegerInterval', 'cylc.flow.cycling.integer:IntegerInterval', fields={'value': 'str'})
@@ -275,7 +275,8 @@ def lemma_standardise_idempotent(p):
 
 L = 'contracts.c18_points:'
 _pp = {'a': 'IntegerPoint', 'b': 'IntegerPoint', 'c': 'IntegerPoint', 'result': 'bool'}
-contract(L + 'lemma_trichotomy', sorts=_pp, requires=['pt_ok(a)', 'pt_ok(b)'],
+_pp2 = {'a': 'IntegerPoint', 'b': 'IntegerPoint', 'result': 'bool'}
+contract(L + 'lemma_trichotomy', sorts=_pp2, requires=['pt_ok(a)', 'pt_ok(b)'],
          ensures={'holds': 'result'}, props=['C18'])
 contract(L + 'lemma_transitive', sorts=_pp, requires=['pt_ok(a)', 'pt_ok(b)', 'pt_ok(c)'],
          ensures={'holds': 'result'}, props=['C18'])
@@ -283,11 +284,77 @@ contract(L + 'lemma_roundtrip',
          sorts={'p': 'IntegerPoint', 'i': 'IntegerInterval', 'result': 'bool'},
          requires=['pt_ok(p)', 'iv_ok(i)'], ensures={'holds': 'result'}, props=['C18'],
          modifies=[])
-contract(L + 'lemma_hash_standardised', sorts=_pp,
+contract(L + 'lemma_hash_standardised', sorts=_pp2,
          requires=['canonical_pt(a)', 'canonical_pt(b)'],
          ensures={'holds': 'result'}, props=['C18'])
-contract(L + 'lemma_hash_all', sorts=_pp, requires=['pt_ok(a)', 'pt_ok(b)'],
+contract(L + 'lemma_hash_all', sorts=_pp2, requires=['pt_ok(a)', 'pt_ok(b)'],
          ensures={'holds': 'result'}, props=['C18'])
 contract(L + 'lemma_standardise_idempotent',
          sorts={'p': 'IntegerPoint', 'result': 'bool'}, requires=['pt_ok(p)'],
          ensures={'holds': 'result'}, modifies=['p.value'], props=['C18'])
+
+
+# ------------------------------------------------------------------ replay hooks
+def _mkpoint(v):
+    from cylc.flow.cycling.integer import IntegerPoint
+    return IntegerPoint(str(v))
+
+
+def _mkinterval(n):
+    from cylc.flow.cycling.integer import IntegerInterval
+    return IntegerInterval(('-P%d' % -n) if n < 0 else ('P%d' % n))
+
+
+_NONCANON = ['0', '1', '01', '+1', '-0', '00', ' 1', '1 ', '-1', '-01', '2', '10', '1_0', '007']
+
+
+def _ints_near(model):
+    base = {0, 1, -1, 2, 3, 7}
+    for v in (model or {}).values():
+        if isinstance(v, int) and not isinstance(v, bool) and abs(v) < 10 ** 9:
+            base.update({v, v + 1, v - 1})
+    return sorted(base)
+
+
+def conc_points(nparams, strings=False):
+    """Candidates: tuples of points over small ints (and non-canonical texts)."""
+    import itertools
+
+    def hook(model, oname):
+        vals = _NONCANON if strings else [str(i) for i in _ints_near(model)][:9]
+        for combo in itertools.product(vals, repeat=nparams):
+            yield (dict(values=list(combo)),
+                   (lambda combo=combo: ([_mkpoint(v) for v in combo], {})))
+    return hook
+
+
+def conc_point_interval(model, oname):
+    import itertools
+    ints = _ints_near(model)[:9]
+    for a, b in itertools.product(ints, ints):
+        yield (dict(point=a, interval=b), (lambda a=a, b=b: ([_mkpoint(a), _mkinterval(b)], {})))
+
+
+def kf_noncanonical(desc, res):
+    """Known finding C18/F7 covers exactly: two points whose texts differ but
+    denote the same integer."""
+    vals = desc.get('values') if isinstance(desc, dict) else None
+    if not vals or len(vals) != 2:
+        return False
+    a, b = vals
+    try:
+        return a != b and int(a) == int(b)
+    except ValueError:
+        return False
+
+
+from pyvc.spec import REG as _REG  # noqa: E402
+for _k, _c in _REG.contracts.items():
+    if not _k.startswith(('cylc.flow.cycling', 'contracts.c18_points')) or 'C18' not in _c.props:
+        continue
+    _ps = [n for n in _c.sorts if n != 'result']
+    _kinds = [_c.sorts[n] for n in _ps]
+    if _kinds and all(k == 'IntegerPoint' for k in _kinds):
+        _c.concretise = conc_points(len(_kinds), strings=_k.endswith('lemma_hash_all'))
+    elif _kinds == ['IntegerPoint', 'IntegerInterval']:
+        _c.concretise = conc_point_interval
